@@ -175,6 +175,14 @@ func judge(c Case) string {
 		}
 		add("print(c < 0)", fmt.Sprint(constant.Sign(fv) < 0))
 		add("print(c == 0)", fmt.Sprint(constant.Sign(fv) == 0))
+		if untyped {
+			// exactness: an untyped constant is compared with its exact value written as a
+			// quotient of two integral float literals (both sides are exact in Go)
+			if num, den := constant.Num(val), constant.Denom(val); num.Kind() == constant.Int && den.Kind() == constant.Int && len(num.ExactString()) < 60 && len(den.ExactString()) < 60 {
+				add("print(c == "+num.ExactString()+".0 / "+den.ExactString()+".0)", "true")
+				add("print(c*2 - "+num.ExactString()+".0 / "+den.ExactString()+".0 == "+num.ExactString()+".0 / "+den.ExactString()+".0)", "true")
+			}
+		}
 	case b.Info()&types.IsComplex != 0 || untyped && val.Kind() == constant.Complex:
 		cv := constant.ToComplex(val)
 		re, _ := constant.Float64Val(constant.Real(cv))
@@ -248,7 +256,7 @@ func init() {
 
 // ---- generator
 
-var intLits = []string{"0", "1", "2", "3", "7", "8", "10", "127", "128", "255", "256", "32767", "32768", "65535", "65536", "2147483647", "2147483648", "4294967295", "4294967296", "9223372036854775807", "9223372036854775808", "18446744073709551615", "18446744073709551616", "0x7f", "0xff", "0b101", "0o17", "017", "1_000", "340282366920938463463374607431768211455", "340282366920938463463374607431768211456", "63", "64", "31", "32", "15", "16", "100"}
+var intLits = []string{"0", "1", "2", "3", "7", "8", "10", "127", "128", "255", "256", "32767", "32768", "65535", "65536", "2147483647", "2147483648", "4294967295", "4294967296", "9223372036854775807", "9223372036854775808", "18446744073709551615", "18446744073709551616", "0x7f", "0xff", "0b101", "0o17", "017", "1_000", "340282366920938463463374607431768211455", "340282366920938463463374607431768211456", "63", "64", "31", "32", "15", "16", "100", "9007199254740991", "9007199254740992", "9007199254740993"}
 var floatLits = []string{"0.0", "1.0", "0.5", "1.5", "2.5", "1e3", "1e-3", "1e308", "1.7976931348623157e308", "1.8e308", "1e309", "5e-324", "4.9e-324", "1e-400", "3.4028234663852886e38", "3.5e38", "1e1000", "0x1p-1074", "0x1p10", "1e19", "9223372036854775807.0", "127.0", "128.0", "0.1", "1e100"}
 var otherLits = []string{"'a'", "'\\x00'", "'\\u00e9'", "'\\U0010FFFF'", "\"\"", "\"abc\"", "\"é\"", "true", "false", "1i", "2.5i", "0i", "1e308i", "'0'"}
 var basicTypes = []string{"int", "int8", "int16", "int32", "int64", "uint", "uint8", "uint16", "uint32", "uint64", "uintptr", "float32", "float64", "complex64", "complex128", "string", "bool", "rune", "byte"}
@@ -310,7 +318,7 @@ func genExpr(t *rapid.T, depth int) string {
 // kind mismatches.
 
 var intTypes = []string{"int", "int8", "int16", "int32", "int64", "uint", "uint8", "uint16", "uint32", "uint64", "uintptr", "rune", "byte"}
-var plainFloatLits = []string{"0.0", "1.0", "0.5", "1.5", "2.5", "1e3", "1e-3", "1e308", "1.7976931348623157e308", "1.8e308", "1e309", "3.4028234663852886e38", "3.5e38", "0x1p10", "1e19", "127.0", "128.0", "0.1", "1e100", "1e-300"}
+var plainFloatLits = []string{"0.0", "1.0", "0.5", "1.5", "2.5", "1e3", "1e-3", "1e308", "1.7976931348623157e308", "1.8e308", "1e309", "3.4028234663852886e38", "3.5e38", "0x1p10", "1e19", "127.0", "128.0", "0.1", "1e100", "1e-300", "9007199254740992.0", "0.25"}
 var mismatches = []string{"(1 + \"a\")", "(true + 1)", "(\"a\" < 1)", "!(1)", "-(\"s\")", "(\"a\" * 2)", "(true && 1)", "(1 == \"1\")", "(\"a\" - \"b\")", "len(5)", "(1 / 0)", "(1.5 / 0.0)", "(7 % 0)", "int8(200)", "uint8(-1)", "uint(1 << 64)", "string(1.5)", "bool(1)", "int(\"1\")"}
 
 func genInt(t *rapid.T, d int) string {
